@@ -233,8 +233,14 @@ CallCb(st, cb, T, args) ==
              s1 == [st EXCEPT !.log = Append(@, [k |-> "cb", cb |-> args, this |-> T]), !.n = n1]
          IN  CbBehave(s1, cb, args, n1)
 
-(* 10.4.3: a non-strict function called with this = undefined sees the global object *)
-ThisFor(T) == IF T = Undef THEN GlobalThis ELSE T
+(* 10.4.3: the this value a non-strict callback sees *)
+(* (10.4.3 steps 1-3): undefined and null give the global object, any other primitive ToObject(thisArg), *)
+(* a fresh wrapper object at every call (projected as [t |-> "wrap", cls, k |-> 0, pv]: class and       *)
+(* primitive value, no identity)                                                                        *)
+PrimClassOf(v) == CASE v.t = "str" -> "String" [] v.t = "num" -> "Number" [] v.t = "bool" -> "Boolean"
+ThisFor(T) == IF T = Undef \/ T = Null THEN GlobalThis
+              ELSE IF T.t \in {"str", "num", "bool"} THEN [t |-> "wrap", cls |-> PrimClassOf(T), k |-> 0, pv |-> T]
+              ELSE T
 
 -----------------------------------------------------------------------------
 (* 15.4.4.5 join; 15.4.4.2 toString                                          *)
